@@ -1,45 +1,83 @@
 (* C04 -- Train/inference consistency of the DataFrame-to-TensorFrame converter.
-   Statements only; proofs are in Proofs/ConverterStateProofs.v.  The model
-   (Model/ConverterState.v) is the converter as a state machine whose state is the
-   `_col_names_dict` it shares with every returned frame; it is tied to /repo by the
-   correspondence run of ./check C04.  `None` = the call raises. *)
-From Coq Require Import List Arith ZArith Bool String.
-From PF Require Import Lib.ListX Gen.Tables Model.Stats Model.ConverterState Proofs.ConverterStateProofs.
-Import ListNotations.
+   Statements only; proofs are in Proofs/ConverterStateProofs.v.
 
-(* ---- row locality: converting df.iloc[idx] (any multiset / order of positions) is
-   selecting the same positions of the conversion of df -- as an equation between
-   possibly-raising computations ... *)
+   The model (Model/ConverterState.v) is the converter as a state machine whose state is
+   the `_col_names_dict` it shares with every returned frame.  The state machine is generic
+   in the per-column mapper `enc_col` (nothing is assumed about it); the concrete converter
+   `pcall` instantiates it with the pandas/torch pipeline models of Model/Mapper.v (numerical,
+   categorical, multicategorical, sequence, timestamp, embedding columns), whose row-locality
+   is DERIVED here from the theorems of Props/C01.v (each pipeline = map canonical_cell).
+   Columns handled by user callables (text_embedded, image_embedded, text_tokenized) are
+   opaque row ids.  Tied to /repo by the correspondence run of ./check C04.  None = raises. *)
+From Coq Require Import List Arith ZArith Bool String.
+From PF Require Import Lib.ListX Gen.Tables Model.Ragged Model.Mapper Model.MapperSpec Model.Converter Model.ConverterSpec
+  Proofs.MapperProofs Model.ConverterState Proofs.ConverterStateProofs.
+Import ListNotations.
+Local Open Scope nat_scope.
+Local Notation length := List.length (only parsing).
+
+(* ---- row locality of the converter built from the modelled pipelines.
+   For every NON-EMPTY list of row positions idx (any multiset, any order -- single rows,
+   repeats, reorders): if converting df succeeds, converting df.iloc[idx] succeeds, leaves the
+   same converter state, and returns exactly the rows idx of the conversion of df.
+   Premises, all about the data / fitted statistics (`pipeline_ok`): the index is as long as
+   every column; category lists hold every category once (value_counts); the integer -1 is
+   neither a category nor a token of a multicategorical column, which is held with object/string
+   dtype; embedding vectors of a column have one width.  The empty selection is excluded: five
+   of the nine mappers raise on an empty column (the property does not name it). *)
 Theorem convert_row_local :
-  forall cfg d idx df df',
-    df_select idx df = Some df' ->
-    call cfg d df' = (p <- call cfg d df ;; tf' <- tf_select idx (snd p) ;; Some (fst p, tf')).
-Proof. exact call_row_local. Qed.
+  forall fits target d idx (df df' : pdataframe) d1 tf,
+    idx <> [] ->
+    (forall c col, df_col df c = Some col -> pipeline_ok fits c (df_index df) col) ->
+    pdf_select idx df = Some df' ->
+    pcall fits target d df = Some (d1, tf) ->
+    exists tf', tf_select idx tf = Some tf' /\ pcall fits target d df' = Some (d1, tf').
+Proof. exact pcall_select. Qed.
 Print Assumptions convert_row_local.
 
-(* ... and whenever the whole frame converts, every selection of its rows converts too *)
-Theorem convert_selection_succeeds :
-  forall cfg d idx df df' d1 tf,
-    df_select idx df = Some df' -> call cfg d df = Some (d1, tf) ->
-    exists tf', tf_select idx tf = Some tf' /\ call cfg d df' = Some (d1, tf').
-Proof. exact call_select_succeeds. Qed.
-Print Assumptions convert_selection_succeeds.
+(* where that comes from: the pipelines of Model/Mapper.v are row-wise -- proved from
+   numerical_cells / categorical_cells / multicategorical_cells / sequence_cells /
+   timestamp_cells / embedding_cells (Props/C01.v), for any label type and label equality *)
+Theorem mapper_pipelines_rowwise :
+  forall (L : Type) (leqb : L -> L -> bool) fits,
+    leqb_refl leqb -> rowwise (pipeline_col leqb fits) fcol_select (pipeline_ok fits).
+Proof. exact @pipeline_rowwise. Qed.
+Print Assumptions mapper_pipelines_rowwise.
 
-(* ---- however often the converter is called: the k-th result of any sequence of calls
-   equals what the FIRST call of a fresh converter returns on the same input (features,
-   y, and -- next theorem -- names) *)
+(* the premises are inherited by selections, so the theorem applies to selections of selections *)
+Theorem premises_inherited_by_selections :
+  forall (L : Type) fits c (ix ix' : list L) col col' idx,
+    pipeline_ok fits c ix col -> tgather ix idx = Some ix' -> fcol_select idx col = Some col' ->
+    pipeline_ok fits c ix' col'.
+Proof. exact @pipeline_ok_select. Qed.
+Print Assumptions premises_inherited_by_selections.
+
+(* ... and the state machine turns ANY row-wise mappers into a row-local converter *)
+Theorem convert_row_local_generic :
+  forall (L Col Enc : Type) (enc_col : string -> list L -> Col -> option (list Enc))
+         (col_select : list nat -> Col -> option Col) ok target d idx df df' d1 tf,
+    rowwise enc_col col_select ok -> idx <> [] ->
+    (forall c col, df_col df c = Some col -> ok c (df_index df) col) ->
+    df_select col_select idx df = Some df' -> call enc_col target d df = Some (d1, tf) ->
+    exists tf', tf_select idx tf = Some tf' /\ call enc_col target d df' = Some (d1, tf').
+Proof. exact @call_select_rowwise. Qed.
+Print Assumptions convert_row_local_generic.
+
+(* ---- however often the converter is called (for ARBITRARY mappers): the k-th result of any
+   sequence of calls equals what the FIRST call of a fresh converter returns on the same input *)
 Theorem convert_idempotent_state :
-  forall cfg dfs d,
-    option_map snd (run cfg d dfs) = mapM (fun df => option_map snd (call cfg d df)) dfs.
-Proof. exact run_idempotent. Qed.
+  forall (L Col Enc : Type) (enc_col : string -> list L -> Col -> option (list Enc)) target dfs d,
+    option_map snd (run enc_col target d dfs) = mapM (fun df => option_map snd (call enc_col target d df)) dfs.
+Proof. exact @run_idempotent. Qed.
 Print Assumptions convert_idempotent_state.
 
 (* the shared name table after any non-empty sequence of calls is the one the first call
    wrote; it is a fixed point of `_merge_feat`, so names seen through earlier frames never change *)
 Theorem names_stable_after_first_call :
-  (forall cfg dfs d d' tfs, run cfg d dfs = Some (d', tfs) -> dfs <> [] -> merge_feat d = Some d') /\
+  (forall (L Col Enc : Type) (enc_col : string -> list L -> Col -> option (list Enc)) target dfs d d' tfs,
+      run enc_col target d dfs = Some (d', tfs) -> dfs <> [] -> merge_feat d = Some d') /\
   (forall (d d' : dict (list string)), merge_feat d = Some d' -> merge_feat d' = Some d').
-Proof. split; [exact run_state|exact (@merge_feat_idempotent string)]. Qed.
+Proof. split; [exact @run_state|exact (@merge_feat_idempotent string)]. Qed.
 Print Assumptions names_stable_after_first_call.
 
 (* `_merge_feat` never raises, and it treats the feature dict and the name dict alike
@@ -53,58 +91,78 @@ Print Assumptions merge_total_and_natural.
 
 (* a call = rewrite the names, then map every listed column with the mapper fitted for it *)
 Theorem call_uses_fitted_statistics_only :
-  forall cfg d df,
-    call cfg d df = (d' <- merge_feat d ;;
-                     yv <- call_y cfg df ;;
-                     fd <- seq_dict (dmap (map (map_col cfg df)) d') ;;
-                     Some (d', {| feats := fd; y := yv |})).
-Proof. exact call_char. Qed.
+  forall (L Col Enc : Type) (enc_col : string -> list L -> Col -> option (list Enc)) target d df,
+    call enc_col target d df =
+    (d' <- merge_feat d ;;
+     yv <- call_y enc_col target df ;;
+     fd <- seq_dict (dmap (map (map_col enc_col df)) d') ;;
+     Some (d', {| feats := fd; y := yv |})).
+Proof. exact @call_char. Qed.
 Print Assumptions call_uses_fitted_statistics_only.
 
-(* ---- unseen values *)
+(* ---- unseen values, through the modelled pipelines *)
+Theorem categorical_column_cells :
+  forall (L : Type) (leqb : L -> L -> bool) fits c cats (ix : list L) cells,
+    lookup fits c = Some (FitCat cats) -> NoDup cats -> length ix = length cells ->
+    pipeline_col leqb fits c ix (FCat cells) = Some (map (canon_cat cats) cells).
+Proof. exact @pipeline_categorical. Qed.
+Print Assumptions categorical_column_cells.
+
 Theorem unseen_category_is_missing :
-  forall cats v, ~ In v cats -> apply_fit (FitCat cats) (RCat (Some v)) = ECat (-1).
-Proof. exact unseen_category. Qed.
+  forall cats v, ~ In v cats -> canon_cat cats (Some v) = [SInt (-1)] /\ canon_cat cats None = [SInt (-1)].
+Proof. intros cats v H. split; [now apply canon_cat_unseen|reflexivity]. Qed.
 Print Assumptions unseen_category_is_missing.
 
 Theorem category_never_aliased :
-  forall cats v i, apply_fit (FitCat cats) (RCat (Some v)) = ECat (Z.of_nat i) -> nth_error cats i = Some v.
-Proof. exact category_no_alias. Qed.
+  forall cats v k, canon_cat cats (Some v) = [SInt (Z.of_nat k)] -> nth_error cats k = Some v.
+Proof. exact canon_cat_no_alias. Qed.
 Print Assumptions category_never_aliased.
 
+(* a multicategorical cell becomes the ascending set of positions of those of its tokens that are
+   fitted categories (canon_multi, Props/C01.v multicategorical_cell_is_index_set): unseen tokens
+   are left out, no position stands for a token the cell does not hold *)
+Theorem multicategorical_column_cells :
+  forall (L : Type) (leqb : L -> L -> bool) fits c cats sep (ix : list L) cells canon,
+    lookup fits c = Some (FitMulti cats sep) -> NoDup cats -> ~ In (VInt (-1)) cats ->
+    Forall (tokens_ok sep) cells -> length ix = length cells ->
+    mapM (canon_multi cats sep) cells = Some canon ->
+    pipeline_col leqb fits c ix (FMulti true cells) = Some canon.
+Proof. exact @pipeline_multicategorical. Qed.
+Print Assumptions multicategorical_column_cells.
+
 Theorem multicategorical_unseen_dropped :
-  (forall cats toks z,
-      In z (encode_multi cats (Some toks)) <->
-      exists t i, In t toks /\ nth_error cats i = Some t /\ index_of cats t = Some i /\ z = Z.of_nat i) /\
-  (forall cats toks, (forall t, In t toks -> ~ In t cats) ->
-                     apply_fit (FitMulti cats) (RMulti (Some toks)) = EMulti []).
-Proof. split; [exact multicat_tokens|exact multicat_unseen_dropped]. Qed.
+  forall cats sep c toks,
+    c <> MCMissing -> tokens_of sep c = Some toks ->
+    exists ks, canon_multi cats sep c = Some (map (fun k => SInt (Z.of_nat k)) ks) /\
+               Sorted.StronglySorted lt ks /\
+               forall k, In k ks <-> exists cat, nth_error cats k = Some cat /\ In cat toks.
+Proof. exact canon_multi_index_set. Qed.
 Print Assumptions multicategorical_unseen_dropped.
 
 (* ---- y only when the frame has the target column *)
 Theorem no_target_column_no_y :
-  forall cfg d df d1 tf,
-    call cfg d df = Some (d1, tf) ->
-    (cfg_target cfg = None \/ exists t, cfg_target cfg = Some t /\ df_col df t = None) ->
+  forall (L Col Enc : Type) (enc_col : string -> list L -> Col -> option (list Enc)) target d df d1 tf,
+    call enc_col target d df = Some (d1, tf) ->
+    (target = None \/ exists t, target = Some t /\ df_col df t = None) ->
     y tf = None.
-Proof. exact no_target_no_y. Qed.
+Proof. exact @no_target_no_y. Qed.
 Print Assumptions no_target_column_no_y.
 
 Theorem target_column_gives_y :
-  forall cfg d df d1 tf t col f,
-    call cfg d df = Some (d1, tf) -> cfg_target cfg = Some t -> df_col df t = Some col ->
-    lookup (cfg_fits cfg) t = Some f -> y tf = Some (map (apply_fit f) col).
-Proof. exact target_present_y. Qed.
+  forall (L Col Enc : Type) (enc_col : string -> list L -> Col -> option (list Enc)) target d df d1 tf t col,
+    call enc_col target d df = Some (d1, tf) -> target = Some t -> df_col df t = Some col ->
+    exists enc, enc_col t (df_index df) col = Some enc /\ y tf = Some enc.
+Proof. exact @target_present_y. Qed.
 Print Assumptions target_column_gives_y.
 
 (* ---- supplying the statistics of a previous materialization = recomputing them.
    Premise: the recomputed statistics contain every statistic the generated table
    stats_for_stype requires (this is C03's stats_per_stype_table + correspondence) *)
 Theorem supplied_statistics_equal_recomputed :
-  forall cts target compute width df st d tf,
+  forall cts seps target compute width df st d tf,
     validate_stats cts (compute df) = true ->
-    materialize cts target compute width None df = Some (st, d, tf) ->
-    materialize cts target compute width (Some st) df = Some (st, d, tf).
+    materialize cts seps target compute width None df = Some (st, d, tf) ->
+    materialize cts seps target compute width (Some st) df = Some (st, d, tf).
 Proof. exact materialize_supplied_equiv. Qed.
 Print Assumptions supplied_statistics_equal_recomputed.
 
@@ -115,41 +173,64 @@ Proof. intros s; destruct s; reflexivity. Qed.
 Print Assumptions parent_of_parent_table.
 
 (* ---- non-vacuity: a converter with an embedding column and two embedded children, a
-   category column with an unseen value, three calls (whole frame, reordered multiset, single row) *)
+   category column with an unseen value, a multicategorical column with an unseen token;
+   premises of convert_row_local hold; three calls; a reordered multiset of rows *)
 Local Open Scope string_scope.
 Definition ex_cts : list (string * stype) :=
   [("img", st_image_embedded); ("cat", st_categorical); ("emb", st_embedding); ("txt", st_text_embedded);
-   ("lab", st_categorical)].
-Definition ex_cfg : config :=
-  {| cfg_cts := ex_cts; cfg_target := Some "lab";
-     cfg_fits := [("img", FitOpaque); ("cat", FitCat [5; 2]%Z); ("emb", FitOpaque); ("txt", FitOpaque);
-                  ("lab", FitCat [0; 1]%Z)] |}.
-Definition ex_df : dataframe :=
-  [("cat", [RCat (Some 2); RCat None; RCat (Some 9)]%Z); ("img", [ROpaque 0; ROpaque 1; ROpaque 2]%Z);
-   ("emb", [ROpaque 0; ROpaque 1; ROpaque 2]%Z); ("txt", [ROpaque 0; ROpaque 1; ROpaque 2]%Z);
-   ("lab", [RCat (Some 1); RCat (Some 0); RCat (Some 1)]%Z)].
+   ("mul", st_multicategorical); ("lab", st_categorical)].
+Definition ex_fits : list (string * col_fit) :=
+  [("img", FitStub); ("cat", FitCat [VStr [98%Z]; VStr [97%Z]]); ("emb", FitEmb); ("txt", FitStub);
+   ("mul", FitMulti [VStr [120%Z]; VStr [121%Z]] (Some [124%Z])); ("lab", FitCat [VInt 0; VInt 1])].
+Definition ex_df : pdataframe :=
+  {| df_index := [7; 7; 3]%nat;                                         (* duplicated labels *)
+     df_cols :=
+       [("cat", FCat [Some (VStr [97%Z]); None; Some (VStr [122%Z])]);           (* "a", missing, unseen "z" *)
+        ("img", FStub [0; 1; 2]%Z); ("emb", FVec [[NFin 1; NFin 2]; [NFin 3; NFin 4]; [NNaN; NFin 6]]);
+        ("txt", FStub [0; 1; 2]%Z);
+        ("mul", FMulti true [MCStr [121; 124; 113; 124; 120]%Z; MCMissing; MCStr [32]%Z]);   (* "y|q|x", missing, blank *)
+        ("lab", FCat [Some (VInt 1); Some (VInt 0); Some (VInt 1)])] |}.
 
-Example ex_init_names :
-  init_names ex_cts (Some "lab") = [(st_image_embedded, ["img"]); (st_categorical, ["cat"]);
-                                     (st_embedding, ["emb"]); (st_text_embedded, ["txt"])].
-Proof. vm_compute. reflexivity. Qed.
+Ltac ok_col := split; [reflexivity|]; intros f rc Lf A; vm_compute in Lf; inversion Lf; subst f; clear Lf;
+                cbn [attach] in A; inversion A; subst rc; clear A; cbn [rawcol_ok].
+Example ex_premises_hold :
+  Forall (fun p => pipeline_ok ex_fits (fst p) (df_index ex_df) (snd p)) (df_cols ex_df).
+Proof.
+  unfold ex_df; cbn [df_cols df_index fst snd]. repeat apply Forall_cons; try apply Forall_nil; cbn [fst snd].
+  - ok_col. repeat constructor; simpl; intuition discriminate.
+  - ok_col. exists 1%nat. repeat constructor.
+  - ok_col. exists 2%nat. repeat constructor.
+  - ok_col. exists 1%nat. repeat constructor.
+  - ok_col. split; [reflexivity|]. split; [repeat constructor; simpl; intuition discriminate|].
+    split; [simpl; intuition discriminate|].
+    repeat apply Forall_cons; try apply Forall_nil; try apply tokens_ok_str. intros toks Ht. discriminate.
+  - ok_col. repeat constructor; simpl; intuition discriminate.
+Qed.
 
 Example ex_first_call_rewrites_names :
-  option_map fst (call ex_cfg (init_names ex_cts (Some "lab")) ex_df)
-  = Some [(st_categorical, ["cat"]); (st_embedding, ["emb"; "txt"; "img"])].
+  option_map fst (pcall ex_fits (Some "lab") (init_names ex_cts (Some "lab")) ex_df)
+  = Some [(st_categorical, ["cat"]); (st_embedding, ["emb"; "txt"; "img"]); (st_multicategorical, ["mul"])].
 Proof. vm_compute. reflexivity. Qed.
 
 Example ex_three_calls :
   exists d1 t1 t2 t3,
-    run ex_cfg (init_names ex_cts (Some "lab")) [ex_df; ex_df; ex_df] = Some (d1, [t1; t2; t3]) /\
+    prun ex_fits (Some "lab") (init_names ex_cts (Some "lab")) [ex_df; ex_df; ex_df] = Some (d1, [t1; t2; t3]) /\
     t1 = t2 /\ t2 = t3 /\
-    dget (feats t1) st_categorical = Some [[ECat 1; ECat (-1); ECat (-1)]%Z] /\
-    y t1 = Some [ECat 1; ECat 0; ECat 1]%Z.
+    dget (feats t1) st_categorical = Some [[[SInt 1]; [SInt (-1)]; [SInt (-1)]]] /\
+    dget (feats t1) st_multicategorical = Some [[[SInt 0; SInt 1]; [SInt (-1)]; []]] /\
+    y t1 = Some [[SInt 1]; [SInt 0]; [SInt 1]].
 Proof. vm_compute. repeat eexists. Qed.
 
 Example ex_selection :
-  exists df', df_select [2; 0; 0]%nat ex_df = Some df' /\
-  exists d1 tf, call ex_cfg (init_names ex_cts (Some "lab")) df' = Some (d1, tf) /\
+  exists df', pdf_select [2; 0; 0]%nat ex_df = Some df' /\
+  exists d1 tf, pcall ex_fits (Some "lab") (init_names ex_cts (Some "lab")) df' = Some (d1, tf) /\
     dget (feats tf) st_embedding
-    = Some [[EOpaque 2; EOpaque 0; EOpaque 0]; [EOpaque 2; EOpaque 0; EOpaque 0]; [EOpaque 2; EOpaque 0; EOpaque 0]]%Z.
-Proof. vm_compute. repeat eexists. Qed.
+    = Some [[[SNum NNaN; SNum (NFin 6)]; [SNum (NFin 1); SNum (NFin 2)]; [SNum (NFin 1); SNum (NFin 2)]];
+            [[SNum (NFin 2)]; [SNum (NFin 0)]; [SNum (NFin 0)]]; [[SNum (NFin 2)]; [SNum (NFin 0)]; [SNum (NFin 0)]]].
+Proof. eexists. split; [vm_compute; reflexivity|]. vm_compute. repeat eexists. Qed.
+
+(* the empty selection is outside the theorem for a reason: the embedding pipeline raises on it *)
+Example ex_empty_selection_raises :
+  exists df', pdf_select [] ex_df = Some df' /\
+              pcall ex_fits (Some "lab") (init_names ex_cts (Some "lab")) df' = None.
+Proof. eexists. split; [vm_compute; reflexivity|]. vm_compute. reflexivity. Qed.
